@@ -55,6 +55,7 @@ import (
 	"strings"
 	"sync"
 	"sync/atomic"
+	"syscall"
 	"time"
 
 	"harness/internal/lp"
@@ -63,6 +64,7 @@ import (
 	"github.com/lesismal/nbio"
 	"github.com/lesismal/nbio/logging"
 	"github.com/lesismal/nbio/nbhttp"
+	"github.com/lesismal/nbio/vsys"
 )
 
 // ---------------------------------------------------------------- specs
@@ -957,7 +959,17 @@ func handler(w http.ResponseWriter, r *http.Request) {
 	st, sz, fr, nw, fl, d := geti("st"), geti("sz"), q.Get("fr"), geti("w"), q.Get("fl") == "1", geti("d")
 	hlogAdd(cid, rid)
 	inflEnter(cid)
-	defer inflLeave(cid)
+	// "in flight" ends before the write that may complete the response on the wire: once the client has the whole
+	// response it may rightly send its next request (on another connection of a pool, too), and a handler goroutine that
+	// is descheduled between that write and its return must not count as overlapping with the next one
+	left := false
+	leave := func() {
+		if !left {
+			left = true
+			inflLeave(cid)
+		}
+	}
+	defer leave()
 	if n := geti("sb"); n > 0 {
 		if c, _ := srvNbio(r.RemoteAddr); c != nil {
 			if wb, ok := c.(interface{ SetWriteBuffer(int) error }); ok {
@@ -1021,6 +1033,9 @@ func handler(w http.ResponseWriter, r *http.Request) {
 		end := len(body)
 		if i < len(cuts) {
 			end = cuts[i]
+		}
+		if i == len(cuts) {
+			leave()
 		}
 		if end > prev {
 			_, _ = w.Write(body[prev:end])
@@ -1644,13 +1659,14 @@ func (s *server) runStd(h *hist) {
 // ---------------------------------------------------------------- nbhttp clients
 
 type cbRec struct {
-	n    int32
-	st   int
-	hdr  http.Header
-	body []byte
-	err  error
-	mu   sync.Mutex
-	late []string // what later invocations (there must be none) were handed
+	local string // local address of the connection the callback was handed (key of the TLS record tracker)
+	n     int32
+	st    int
+	hdr   http.Header
+	body  []byte
+	err   error
+	mu    sync.Mutex
+	late  []string // what later invocations (there must be none) were handed
 }
 
 // cbFunc: the callback of one request.  The first invocation is the result; every further one is recorded.
@@ -1670,6 +1686,7 @@ func cbFuncP(rec *cbRec, done *int32, progress chan struct{}, panics bool) func(
 		}()
 		if atomic.AddInt32(&rec.n, 1) == 1 {
 			rec.err = err
+			rec.local = localOf(conn)
 			if err == nil && res != nil {
 				rec.st = res.StatusCode
 				rec.hdr = res.Header.Clone()
@@ -1843,6 +1860,11 @@ func (h *hist) finishCallbacksAt(recs []*cbRec, ordered bool, from int) {
 				class := ""
 				if persist, _ := rfcPersists(r); !persist && h.cliEpoll == "lt" && burst+r.sz > ltBurstCap {
 					class = " class=lt-burst-close"
+				}
+				// the TLS dependency dropped the plaintext in front of a close_notify whose record arrived in two reads
+				// (observed on this very connection by the record tracker, not inferred)
+				if tlsAlertSplit(rec.local) {
+					class = " class=tls-alert-split"
 				}
 				// reported only if it happens again when the case is re-run: rare transport-level races (e.g. a stale epoll
 				// event of a closed connection hitting the connection that reuses its descriptor number) also end an
@@ -2111,10 +2133,153 @@ closeit:
 	h.got = sub.got
 }
 
+// ---------------------------------------------------------------- TLS record tracker (client side reads)
+//
+// The TLS dependency (llib v1.2.4, std/crypto/tls Conn.AppendAndRead / Read) peeks at the record behind the last
+// application-data record: if it is an alert it is consumed at once so that (n, EOF) can be returned.  When only a
+// PART of that alert record has arrived the non-blocking branch returns (0, nil) — although the n plaintext bytes were
+// already taken out of the input buffer and copied to the caller: up to 16 KiB of plaintext vanish, and the nbhttp
+// client reports EOF for a response that was sent completely.  The trigger is a read(2) that ends inside the 23-byte
+// alert record (the ciphertext in front of it fills the read buffer to within 22 bytes).  That is a defect outside
+// nbio with no repair inside nbio (TLSDataHandler cannot know n), recorded as known finding
+// c10-tls-alert-split-drops-tail.  To tag exactly these events — and no other loss on a TLS connection — the
+// executor follows the record framing (the 5-byte headers are plaintext) of every stream nbio reads from a real
+// descriptor and remembers, per connection (local address), whether a read ended inside an alert record.
+
+type tlsTrack struct {
+	local string
+	hdr   [5]byte
+	hn    int  // header bytes collected of the current record
+	rem   int  // body bytes of the current record still to come
+	typ   byte // type of the record whose body is being read
+	dead  bool // not a TLS stream / framing lost
+	split bool // a read ended inside an alert record
+}
+
+var (
+	tlsMu      sync.Mutex
+	tlsByFd    = map[int]*tlsTrack{}
+	tlsByLocal = map[string]*tlsTrack{}
+	tlsWatch   int32 // 1 while a TLS cell runs
+)
+
+func localOf(c net.Conn) (s string) {
+	defer func() { _ = recover() }()
+	if c == nil {
+		return ""
+	}
+	if a := c.LocalAddr(); a != nil {
+		return a.String()
+	}
+	return ""
+}
+
+func fdLocal(fd int) string {
+	sa, err := syscall.Getsockname(fd)
+	if err != nil {
+		return ""
+	}
+	switch a := sa.(type) {
+	case *syscall.SockaddrInet4:
+		return net.JoinHostPort(net.IP(a.Addr[:]).String(), strconv.Itoa(a.Port))
+	case *syscall.SockaddrInet6:
+		return net.JoinHostPort(net.IP(a.Addr[:]).String(), strconv.Itoa(a.Port))
+	}
+	return ""
+}
+
+func tlsOnRead(fd int, b []byte, n int, err error) {
+	if atomic.LoadInt32(&tlsWatch) == 0 || n <= 0 {
+		return
+	}
+	tlsMu.Lock()
+	defer tlsMu.Unlock()
+	t := tlsByFd[fd]
+	if t == nil {
+		t = &tlsTrack{local: fdLocal(fd)}
+		tlsByFd[fd] = t
+		if t.local != "" {
+			tlsByLocal[t.local] = t
+		}
+		// nbio's first read of a stream is at a record boundary: the ClientHello on the server side, the first record
+		// after the handshake on the client side (ClientConn.Do shakes hands on the blocking net.Conn before it hands the
+		// descriptor to nbio, and the server sends nothing more until it gets a request); anything else is not TLS
+		if b[0] < 20 || b[0] > 23 {
+			t.dead = true
+		}
+	}
+	if t.dead {
+		return
+	}
+	for i := 0; i < n; {
+		if t.rem == 0 {
+			k := copy(t.hdr[t.hn:], b[i:n])
+			t.hn += k
+			i += k
+			if t.hn == 5 {
+				t.typ = t.hdr[0]
+				t.rem = int(t.hdr[3])<<8 | int(t.hdr[4])
+				t.hn = 0
+				if t.typ < 20 || t.typ > 23 || t.hdr[1] != 3 || t.rem > 16384+2048 {
+					t.dead = true
+					return
+				}
+			}
+			continue
+		}
+		k := n - i
+		if k > t.rem {
+			k = t.rem
+		}
+		t.rem -= k
+		i += k
+	}
+	// where did this read end?
+	if (t.hn > 0 && t.hdr[0] == 21) || (t.rem > 0 && t.typ == 21) {
+		t.split = true
+	}
+}
+
+func tlsOnClose(fd int) {
+	tlsMu.Lock()
+	delete(tlsByFd, fd)
+	tlsMu.Unlock()
+}
+
+// tlsAlertSplit: did a read of the connection with this local address end inside an alert record?
+func tlsAlertSplit(local string) bool {
+	if local == "" {
+		return false
+	}
+	tlsMu.Lock()
+	defer tlsMu.Unlock()
+	t := tlsByLocal[local]
+	return t != nil && !t.dead && t.split
+}
+
+func tlsTrackReset(on bool) {
+	tlsMu.Lock()
+	tlsByFd = map[int]*tlsTrack{}
+	tlsByLocal = map[string]*tlsTrack{}
+	tlsMu.Unlock()
+	v := int32(0)
+	if on {
+		v = 1
+	}
+	atomic.StoreInt32(&tlsWatch, v)
+}
+
 // ---------------------------------------------------------------- executor
 
 // degraded: set once a case of this process has reported an oracle failure
 var degraded bool
+
+func setDegraded() {
+	degraded = true
+	if ioTimeout > 5*time.Second {
+		ioTimeout = 5 * time.Second
+	}
+}
 
 // maxAttempts: re-runs of a case whose only failures are of the timing kind
 var maxAttempts = 2
@@ -2383,6 +2548,7 @@ func (c *caseT) runOnce() error {
 	if err != nil {
 		return err
 	}
+	tlsTrackReset(c.cell.tls)
 	type run struct {
 		h, clone *hist
 		done     chan struct{}
@@ -2517,6 +2683,7 @@ func runPoolCase(e *lp.Exec, lines []string) {
 		}
 		out := buf.Bytes()
 		if failed {
+			setDegraded()
 			note := " " + envMon.describe(mk)
 			var b bytes.Buffer
 			for _, l := range strings.SplitAfter(buf.String(), "\n") {
@@ -2552,6 +2719,19 @@ func runPoolOnce(e *lp.Exec, lines []string) (string, bool) {
 	var waiting []*poolGet
 	nreq := 0
 	settle := 40 * time.Millisecond
+	// generous waits cost time only on a failing tree — and there only until the first report (of this case or of an
+	// earlier case of this process): after that the verdict is in and the remaining waits are short
+	bad := degraded
+	oracle := func(format string, a ...interface{}) {
+		bad = true
+		e.Oracle("c10-client-pool", format, a...)
+	}
+	patience := func(long, short time.Duration) time.Duration {
+		if bad {
+			return short
+		}
+		return long
+	}
 	idOf := func(hc *nbhttp.ClientConn) (int, int) {
 		if id, ok := ids[hc]; ok {
 			return id, 0
@@ -2595,7 +2775,7 @@ func runPoolOnce(e *lp.Exec, lines []string) (string, bool) {
 						default:
 							isBlocked = true
 						}
-					} else if time.Since(t0) < 5*time.Second {
+					} else if time.Since(t0) < patience(5*time.Second, time.Second) {
 						continue
 					} else {
 						isBlocked = true
@@ -2614,7 +2794,7 @@ func runPoolOnce(e *lp.Exec, lines []string) (string, bool) {
 			}
 			id, isNew := idOf(g.hc)
 			if busy[id] {
-				e.Oracle("c10-client-pool", "ClientConn %d handed to request %d while it is still in use", id, g.r)
+				oracle("ClientConn %d handed to request %d while it is still in use", id, g.r)
 			}
 			busy[id] = true
 			e.P("got c=%d new=%d reset=%d", id, isNew, b2i(g.reset))
@@ -2633,7 +2813,7 @@ func runPoolOnce(e *lp.Exec, lines []string) (string, bool) {
 			// whichever blocked request the runtime wakes (with one waiter — all the generator produces — it is the oldest)
 			var w *poolGet
 			wi := -1
-			for t0 := time.Now(); w == nil && time.Since(t0) < 30*time.Second; {
+			for t0, lim := time.Now(), patience(30*time.Second, 2*time.Second); w == nil && time.Since(t0) < lim; {
 				for k, x := range waiting {
 					select {
 					case <-x.done:
@@ -2649,7 +2829,7 @@ func runPoolOnce(e *lp.Exec, lines []string) (string, bool) {
 				}
 			}
 			if w == nil {
-				e.Oracle("c10-client-pool", "%d requests still blocked 30 s after ClientConn %d was released", len(waiting), id)
+				oracle("%d requests still blocked after ClientConn %d was released", len(waiting), id)
 				e.P("ok handoff=stuck")
 				continue
 			}
@@ -2660,7 +2840,7 @@ func runPoolOnce(e *lp.Exec, lines []string) (string, bool) {
 			}
 			wid, _ := idOf(w.hc)
 			if busy[wid] {
-				e.Oracle("c10-client-pool", "ClientConn %d handed to request %d while it is still in use", wid, w.r)
+				oracle("ClientConn %d handed to request %d while it is still in use", wid, w.r)
 			}
 			busy[wid] = true
 			e.P("ok handoff=%d:%d:%d", w.r, wid, b2i(w.reset))
@@ -2686,7 +2866,7 @@ func runPoolOnce(e *lp.Exec, lines []string) (string, bool) {
 				} else {
 					e.P("unexpected-conn r=%d", w.r)
 				}
-			case <-time.After(time.Duration(tmo)*time.Millisecond + 20*time.Second):
+			case <-time.After(time.Duration(tmo)*time.Millisecond + patience(20*time.Second, 2*time.Second)):
 				// one-sided: the margin costs time only when the request really stays blocked; and a last look at the
 				// channel — a clock jump fires both timers at once
 				time.Sleep(200 * time.Millisecond)
@@ -2699,7 +2879,7 @@ func runPoolOnce(e *lp.Exec, lines []string) (string, bool) {
 						e.P("unexpected-conn r=%d", w.r)
 					}
 				default:
-					e.Oracle("c10-client-pool", "blocked request %d did not time out", w.r)
+					oracle("blocked request %d did not time out", w.r)
 					e.P("stuck r=%d", w.r)
 				}
 			}
@@ -2715,7 +2895,7 @@ func runPoolOnce(e *lp.Exec, lines []string) (string, bool) {
 				ws = append(ws, strconv.Itoa(w.r))
 			}
 			if cn > max || free+len(bs) != cn || conns != cn {
-				e.Oracle("c10-client-pool", "bookkeeping broken: connNum=%d max=%d free=%d in use=%d conns map=%d", cn, max, free, len(bs), conns)
+				oracle("bookkeeping broken: connNum=%d max=%d free=%d in use=%d conns map=%d", cn, max, free, len(bs), conns)
 			}
 			e.P("state count=%d idle=%d busy=%s waiting=%s", cn, free, joinInts(bs), strings.Join(append(ws, "-"), ","))
 		default:
@@ -2877,10 +3057,7 @@ func runCase(e *lp.Exec, lines []string) {
 			if !degraded && !strings.Contains(f, " class=") { // classified reports are the recorded known findings
 				// On a tree that fails, the remaining cases of this process are still run and reported, but a stall
 				// no longer costs 3 x 25 s per case: the verdict is in, the rest is detail.
-				degraded = true
-				if ioTimeout > 5*time.Second {
-					ioTimeout = 5 * time.Second
-				}
+				setDegraded()
 			}
 		}
 	}
@@ -2915,6 +3092,8 @@ func (quietLogger) Error(f string, v ...interface{}) {
 
 func exec(e *lp.Exec) {
 	logging.SetLogger(quietLogger{})
+	vsys.RealReadHook = tlsOnRead
+	vsys.RealCloseHook = tlsOnClose
 	defer stopServers()
 	var lines []string
 	ncases := 0
